@@ -487,6 +487,61 @@ def check_assume_init(ctx, cfg):
     return n
 
 
+def check_position_stores(ctx, cfg, rule="C03.Q"):
+    """The position of a builder / consumer says which slots hold live elements; it may only move as part of a judged step - a closure of the
+    element-moving protocol (its stores are the closure's own `inc` events) or one iteration of a loop the protocol gives a role to. A store to a
+    position anywhere else (`self.position = source.take(N).count()`: elements counted, dropped by `count`, and then claimed) changes what the
+    owner will drop without an element having been moved. The by-value iterator's cursors are excluded here: each store to them is judged
+    against the deque specification (C06.I / C06.S) and the ownership path rules (C03.I)."""
+    from ..loops import find_loops
+    from ..tys import pointee
+    db = ctx.db(cfg)
+    owners = owner_adts(db)
+    cl = Classifier(db)
+    n = 0
+
+    def pos_of(a, cell):
+        base, path = cell
+        if base[0] == "field" and not path:
+            obase, opath = base[1], base[2]
+        else:
+            obase, opath = base, path
+        if len(opath) != 1 or not isinstance(opath[0], int):
+            return None
+        adt = None
+        if obase[0] == "local":
+            adt = local_adt(a, obase[1])
+        elif obase[0] == "arg":
+            pt = pointee(a.local_ty(obase[1]))
+            adt = pt["def"] if pt is not None and pt.get("k") == "adt" else None
+        if adt in owners and opath[0] in owners[adt]["pos"] and not adt.endswith("GenericArrayIter"):
+            return adt, owners[adt]["names"][opath[0]]
+        return None
+    for b in db.bodies:
+        if b["kind"] not in ("Fn", "AssocFn") or ctx.is_helper(cfg, b):
+            continue
+        if not any(st_.get("k") == "assign" for blk in b["mir"]["blocks"] for st_ in blk.get("stmts", [])):
+            continue
+        a = ctx.analysis(cfg, b["key"])
+        cands = [(s_, pos_of(a, s_["cell"])) for s_ in a.stores + [x for x in a.assigns if x["cell"][0][0] == "local" and x["cell"][1]]]
+        cands = [(s_, p_) for s_, p_ in cands if p_ is not None and not a.blocks[s_["site"][0]]["cleanup"]]
+        if not cands:
+            continue
+        judged = set()
+        for lp in find_loops(a):
+            role, _ok, _det, _info = check_closure_protocol(a, cl, lp)
+            if role != "none":
+                judged |= set(lp.blocks)
+        bad = []
+        for s_, (adt, fname) in cands:
+            if s_["site"][0] in judged:
+                continue
+            bad.append("`%s` of %s is assigned %s at %s outside any judged element-moving step" % (fname, adt.split("::")[-1], vstr(s_["val"])[:80], s_.get("at") or s_["site"]))
+        ctx.ob(rule, b["key"], not bad, "; ".join(sorted(set(bad))) if bad else "%d store(s) to a builder / consumer position, each inside a judged loop step" % len(cands), at=b["at"], cfg=cfg, frozen=False)
+        n += 1
+    return n
+
+
 def has_generic_ty(t):
     if not isinstance(t, dict):
         return False
@@ -581,6 +636,7 @@ def check(ctx):
         n += check_assume_init(ctx, cfg)
         check_no_conjured_elements(ctx, cfg)
         check_vec_disown(ctx, cfg)
+        check_position_stores(ctx, cfg)
         ctx.floor("C03.T", "tiling / whole-value reinterpretation instances (%s)" % cfg, n, 11)
         p = c04.check_closures(ctx, cfg, want_normal=True, rule_p="C03.P")
         ctx.floor("C03.P", "element-moving closures (%s)" % cfg, p, 1)
